@@ -107,6 +107,15 @@ func (r *Run) NontrivialN(n int) { r.mu.Lock(); r.nontrExtra += n; r.mu.Unlock()
 
 func (r *Run) Count(k string, n int) { r.mu.Lock(); r.Counters[k] += n; r.mu.Unlock() }
 
+// Max keeps the largest value seen under k.
+func (r *Run) Max(k string, n int) {
+	r.mu.Lock()
+	if n > r.Counters[k] {
+		r.Counters[k] = n
+	}
+	r.mu.Unlock()
+}
+
 func (r *Run) Sample(s any, max int) {
 	r.mu.Lock()
 	if len(r.Samples) < max {
